@@ -18,7 +18,7 @@ from . import C01, C02, C03, C05, C06
 PROPERTY = "C07"
 LEVEL = "exploration"
 TIMEOUT = 600
-BUDGET = {"quick": 600, "thorough": 3000}
+BUDGET = {"quick": 600, "thorough": 3600}
 REQUIRED_MONITORS = ["cli_runs", "plan_entities"]
 RULE = ("Generated programs from the C01-C06 strata (kept below ~20 entities so the CLI's own solver is fast) are "
         "compiled (1) in-process with the harness-attached plan monitor: every placement of the LayoutPlan must "
